@@ -19,7 +19,7 @@ from symx.harness import stubs_description
 ID = "C16"
 
 
-def _members(lengths, names, grid_ns):
+def _members(lengths, names, grid_ns, stale=False):
     from maze_dataset import MazeDataset, MazeDatasetConfig
 
     class SymMember(MazeDataset):
@@ -37,7 +37,8 @@ def _members(lengths, names, grid_ns):
 
     out, off = [], 0
     for L, nm, g in zip(lengths, names, grid_ns):
-        cfg = MazeDatasetConfig(name=nm, grid_n=g, n_mazes=L)
+        # stale: the member's configuration still carries the count of a larger pool it was cut from (e.g. after slicing)
+        cfg = MazeDatasetConfig(name=nm, grid_n=g, n_mazes=L + (3 if stale else 0))
         m = SymMember(cfg, list(range(off, off + L)))
         m._off = off
         out.append(m)
@@ -45,10 +46,10 @@ def _members(lengths, names, grid_ns):
     return out
 
 
-def _collection(lengths, names, grid_ns):
+def _collection(lengths, names, grid_ns, stale=False):
     from maze_dataset.dataset.collected_dataset import MazeDatasetCollection, MazeDatasetCollectionConfig
 
-    ms = _members(lengths, names, grid_ns)
+    ms = _members(lengths, names, grid_ns, stale)
     cfg = MazeDatasetCollectionConfig(name="coll", maze_dataset_configs=[m.cfg for m in ms])
     return MazeDatasetCollection(cfg, ms), ms
 
@@ -70,6 +71,7 @@ def _name_patterns(k):
     pats = [[f"m{i}" for i in range(k)]]
     if k >= 2:
         pats.append(["same"] * k)  # members may share a name
+    pats.append([f"stale{i}" for i in range(k)])  # members whose configurations report a stale maze count until update_self_config
     return pats
 
 
@@ -123,11 +125,13 @@ def _run_getitem(job):
         cd.np = SNP
         try:
             _history()
-            coll, ms = _collection(v, names, _grid_ns(len(v), vi))
+            stale = names[0].startswith("stale")
+            coll, ms = _collection(v, names, _grid_ns(len(v), vi), stale)
             obs = [("len == sum of member lengths", z3.BoolVal(len(coll) == total)),
                    ("per-member lengths", z3.BoolVal(list(coll.dataset_lengths) == list(v))),
-                   ("flattened maze list is the concatenation in order", z3.BoolVal(list(coll.mazes) == list(range(total)))),
-                   ("reported maze count agrees", z3.BoolVal(coll.cfg.n_mazes == total))]
+                   ("flattened maze list is the concatenation in order", z3.BoolVal(list(coll.mazes) == list(range(total))))]
+            if not stale:
+                obs.append(("reported maze count agrees", z3.BoolVal(coll.cfg.n_mazes == total)))
             coll.update_self_config()
             obs.append(("reported maze count agrees after update_self_config", z3.BoolVal(coll.cfg.n_mazes == total and len(coll) == total)))
             if total > 0:
@@ -153,16 +157,21 @@ def _replay_getitem(job, inputs, notes):
         _history()
     except Exception as e:
         return f"collection-getitem | reading several collections with different length vectors one after the other ([1,0,3], [0,2,0,0,2], [4], then {tag}): {type(e).__name__}: {str(e)[:100]}"
+    stale = names[0].startswith("stale")
     try:
-        coll, ms = _collection(v, names, _grid_ns(len(v), vi))
+        coll, ms = _collection(v, names, _grid_ns(len(v), vi), stale)
     except Exception as e:
         return f"collection-construct | {tag} grid sizes {_grid_ns(len(v), vi)}: building the collection raised {type(e).__name__}: {str(e)[:100]}"
     if len(coll) != total or list(coll.dataset_lengths) != list(v):
         return f"collection-length | {tag}: len={len(coll)} dataset_lengths={coll.dataset_lengths}"
     if list(coll.mazes) != list(range(total)):
         return f"collection-mazes | {tag}: mazes={coll.mazes}"
-    if coll.cfg.n_mazes != total:
+    if not stale and coll.cfg.n_mazes != total:
         return f"collection-count | {tag}: cfg.n_mazes={coll.cfg.n_mazes} total={total}"
+    coll.update_self_config()
+    if coll.cfg.n_mazes != total or len(coll) != total or list(coll.dataset_lengths) != list(v):
+        return (f"collection-count | {tag}{' (member configurations reported stale counts before)' if stale else ''}: after update_self_config cfg.n_mazes={coll.cfg.n_mazes}, "
+                f"len={len(coll)}, dataset_lengths={coll.dataset_lengths}, mazes={len(coll.mazes)}")
     if "i" in inputs and total > 0:
         i = inputs["i"]
         try:
